@@ -8,6 +8,7 @@ from ..core import Unrecognised
 from ..lin import Lin
 from ..repo import chain, params, src, strip_docstring, calls
 from ..tables import Bool, Sign, check_table, SKIP
+from ..localroles import rename, name_of, unique, calls_to, assigned_names
 
 
 def run(repo, report, tier):
@@ -30,7 +31,15 @@ def run(repo, report, tier):
 
 def _ml_rows(repo):
     """decision tree of one iteration of the loop over lengths in _match_to_multiple_lengths"""
-    c, fn = repo.need_method("AdapterIndex", "_match_to_multiple_lengths")
+    c, fn0 = repo.need_method("AdapterIndex", "_match_to_multiple_lengths")
+    # locals by role: the best-so-far record is what is handed to _make_match(adapter, length, matches, errors, read);
+    # the affix is what _make_affix cuts from
+    mm = unique(calls_to(fn0, "self._make_match"), "_match_to_multiple_lengths: call of self._make_match", repo.loc(fn0))
+    if len(mm.args) != 5:
+        raise Unrecognised("_match_to_multiple_lengths: self._make_match is not called with five positional arguments", repo.loc(mm))
+    best = [name_of(a, "best-so-far argument of _make_match", repo.loc(mm)) for a in mm.args[:4]]
+    aff = unique([name_of(x.args[0], "first argument of _make_affix", repo.loc(x)) for x in calls_to(fn0, "self._make_affix") if x.args], "_match_to_multiple_lengths: affix variable", repo.loc(fn0))
+    fn = rename(fn0, dict(zip(best, ("best_adapter", "best_length", "best_m", "best_e")), **{aff: "affix"}))
     ps = params(fn)
     loops = [s for s in strip_docstring(fn.body) if isinstance(s, ast.For)]
     if len(loops) != 1 or src(loops[0].iter) != "self._lengths":
@@ -143,20 +152,71 @@ def r1_coordinates(repo, report):
     report.ob("C08.R1", "IndexedPrefixAdapters / IndexedSuffixAdapters", ok, facts={}, expected="prefix=True / prefix=False", loc=repo.loc(ipa))
 
 
-def r2_ambiguity(repo, report):
-    c, fn = repo.need_method("AdapterIndex", "_make_index")
-    # the two insertion loops: bodies that assign index[s]
+def _index_roles(repo, fn0):
+    """_make_index with its locals named by role: the index is the dictionary returned (second component) and stored
+    into with a (adapter, errors, matches) triple under the enumerated string; the other container keyed by that
+    string is the ambiguity record; the lengths set is what is returned sorted."""
+    rets = [n.value for n in ast.walk(fn0) if isinstance(n, ast.Return) and isinstance(n.value, ast.Tuple)]
+    ret = unique(rets, "_make_index: returned tuple", repo.loc(fn0))
+    if len(ret.elts) != 3:
+        raise Unrecognised("_make_index does not return (lengths, index, max_k)", repo.loc(ret))
+    index = name_of(ret.elts[1], "_make_index: returned index", repo.loc(ret))
+    srt = ret.elts[0]
+    lengths = name_of(srt.args[0], "_make_index: lengths", repo.loc(ret)) if isinstance(srt, ast.Call) and chain(srt.func) == "sorted" and srt.args else None
     sites = []
-    for n in ast.walk(fn):
+    for n in ast.walk(fn0):
         if isinstance(n, ast.For):
-            direct = [s for s in n.body if isinstance(s, ast.Assign) and isinstance(s.targets[0], ast.Subscript) and chain(s.targets[0].value) == "index"]
+            direct = [s for s in n.body if isinstance(s, ast.Assign) and isinstance(s.targets[0], ast.Subscript) and chain(s.targets[0].value) == index]
             if direct:
-                sites.append(n)
+                sites.append((n, direct[0]))
+    mapping = {index: "index"}
+    if lengths:
+        mapping[lengths] = "lengths"
+    amb = set()
+    for lp, st in sites:
+        key = name_of(st.targets[0].slice, "index key", repo.loc(st))
+        if not (isinstance(st.value, ast.Tuple) and len(st.value.elts) == 3):
+            raise Unrecognised("_make_index: the index entry is not an (adapter, errors, matches) triple", repo.loc(st))
+        ad, er, ma = [name_of(e, "component of the index entry", repo.loc(st)) for e in st.value.elts]
+        for a_, c_ in ((key, "s"), (ad, "adapter"), (er, "errors"), (ma, "matches")):
+            if mapping.get(a_, c_) != c_:
+                raise Unrecognised(f"_make_index: variable {a_} plays two roles ({mapping[a_]}, {c_})", repo.loc(st))
+            mapping[a_] = c_
+        for x in ast.walk(lp):
+            if isinstance(x, ast.Subscript) and isinstance(x.value, ast.Name) and x.value.id != index and isinstance(x.slice, ast.Name) and x.slice.id == key and isinstance(x.ctx, ast.Store):
+                amb.add(x.value.id)
+            if isinstance(x, ast.Compare) and len(x.ops) == 1 and isinstance(x.ops[0], (ast.In, ast.NotIn)) and isinstance(x.left, ast.Name) and x.left.id == key and isinstance(x.comparators[0], ast.Name) and x.comparators[0].id != index:
+                amb.add(x.comparators[0].id)
+    if len(amb) == 1:
+        mapping[amb.pop()] = "ambiguous"
+    defs = assigned_names(fn0)
+    inv = {v: k for k, v in mapping.items()}
+    ad = inv.get("adapter")
+    seqs = [k for k, vs in defs.items() if any(src(v) == f"{ad}.sequence" for v in vs)]
+    if len(seqs) == 1:
+        mapping[seqs[0]] = "sequence"
+        ks = [k for k, vs in defs.items() if any(isinstance(v, ast.Call) and chain(v.func) == "int" and f"{ad}.max_error_rate" in src(v) for v in vs)]
+        if len(ks) == 1:
+            mapping[ks[0]] = "k"
+        ns = [k for k, vs in defs.items() if any(src(v) == f"len({seqs[0]})" for v in vs)]
+        if len(ns) == 1:
+            mapping[ns[0]] = "n"
+    fn = rename(fn0, mapping)
+    sites2 = []
+    for n in ast.walk(fn):
+        if isinstance(n, ast.For) and any(isinstance(s, ast.Assign) and isinstance(s.targets[0], ast.Subscript) and chain(s.targets[0].value) == "index" for s in n.body):
+            sites2.append(n)
+    return fn, sites2
+
+
+def r2_ambiguity(repo, report):
+    c, fn0 = repo.need_method("AdapterIndex", "_make_index")
+    fn, sites = _index_roles(repo, fn0)
     report.floor("C08.R2", "index insertion loops", len(sites), 2)
     tables = []
     for lp in sites:
         names = [n.id for n in ast.walk(lp.target) if isinstance(n, ast.Name)]
-        sname = names[0]
+        sname = "s"
         env = {"self": Obj("self", nonnull=True), "index": Obj("INDEX", nonnull=True), "ambiguous": Obj("AMBIG", nonnull=True), "adapter": Obj("ADAPTER", nonnull=True),
                "k": Lin.atom("K"), "lengths": Obj("LENGTHS", nonnull=True), sname: Obj("S", nonnull=True), "matches": Lin.atom("MATCHES"), "errors": Lin.atom("ERRORS")}
         rows = explore(repo, lp.body, env, inline=False, loop_mode="forbid")
@@ -221,7 +281,7 @@ def r2_ambiguity(repo, report):
                   fact_key="tie-not-cleared" if mism and all("ambiguous afterwards" in m["code"] and m["inputs"]["d"] == 1 for m in mism) else None,
                   why=(f"for {mism[0]['inputs']}: {mism[0]['code']}, expected {mism[0]['expected']}" if mism else ""))
     # ambiguous strings are removed from the index afterwards
-    dels = [n for n in ast.walk(fn) if isinstance(n, ast.For) and src(n.iter) == "ambiguous" and any(isinstance(x, ast.Delete) and src(x.targets[0]) == f"index[{n.target.id}]" for x in n.body)]
+    dels = [n for n in ast.walk(fn) if isinstance(n, ast.For) and src(n.iter) == "ambiguous" and isinstance(n.target, ast.Name) and any(isinstance(x, ast.Delete) and src(x.targets[0]) == f"index[{n.target.id}]" for x in n.body)]
     report.ob("C08.R2", "ambiguous strings are removed from the index", len(dels) == 1, facts={"loop": src(dels[0])[:80] if dels else None}, expected="for s in ambiguous: del index[s]", loc=repo.loc(fn))
 
 
@@ -300,7 +360,8 @@ def r3_bestof(repo, report):
     inits = {chain(s.targets[0]) if isinstance(s, ast.Assign) else chain(s.target): src(s.value) for s in body[:body.index(lp)] if isinstance(s, (ast.Assign, ast.AnnAssign)) and s.value is not None}
     ok = ok and inits.get("best_m") == "-1" and inits.get("affix") == f"{params(fn)[1]}.upper()"
     report.ob("C08.R3", "_match_to_multiple_lengths: result", ok, facts={"table": tbl, "initial": {k: inits.get(k) for k in ("best_m", "best_e", "affix")}}, expected="None iff nothing was found (best_m still -1), else make_match(best adapter, best length, best_m, best_e, sequence)", loc=repo.loc(fn))
-    c, mi = repo.need_method("AdapterIndex", "_make_index")
+    c, mi0 = repo.need_method("AdapterIndex", "_make_index")
+    mi, _sites = _index_roles(repo, mi0)
     rets = [src(n.value) for n in ast.walk(mi) if isinstance(n, ast.Return)]
     report.ob("C08.R3", "lengths are tried longest first", len(rets) == 1 and rets[0].startswith("(sorted(lengths, reverse=True),"), facts={"returns": rets}, expected="sorted(lengths, reverse=True)", loc=repo.loc(mi))
 
@@ -333,7 +394,8 @@ def r4_eligibility(repo, report):
     ok = sorted({vkey(r.exit[1]) for r in rows if r.exit[0] == "return"}) in (["True"], ["False", "True"]) and any(isinstance(n, ast.ExceptHandler) and chain(n.type) == "ValueError" for n in ast.walk(ia))
     report.ob("C08.R4", "AdapterIndex.is_acceptable", ok, facts={"handler": "ValueError"}, expected="True iff _accept does not raise ValueError", loc=repo.loc(ia))
     # own k in _make_index
-    c, mi = repo.need_method("AdapterIndex", "_make_index")
+    c, mi0 = repo.need_method("AdapterIndex", "_make_index")
+    mi, _sites = _index_roles(repo, mi0)
     loops = [n for n in ast.walk(mi) if isinstance(n, ast.For) and src(n.iter) == "self._adapters" and isinstance(n.target, ast.Name)]
     main = [l for l in loops if any(isinstance(x, ast.Call) and chain(x.func) == "edit_environment" for x in ast.walk(l))]
     if len(main) != 1:
@@ -365,7 +427,9 @@ def r4_eligibility(repo, report):
     # _split_adapters
     c, sp = repo.need_method("AdapterCutter", "_split_adapters")
     tests = [src(n.test) for n in ast.walk(sp) if isinstance(n, ast.If)]
-    ok = tests == ["AdapterIndex.is_acceptable(a, prefix=True)", "AdapterIndex.is_acceptable(a, prefix=False)"]
+    lv = [n.target.id for n in ast.walk(sp) if isinstance(n, ast.For) and isinstance(n.target, ast.Name)]
+    a = lv[0] if len(lv) == 1 else "a"
+    ok = tests == [f"AdapterIndex.is_acceptable({a}, prefix=True)", f"AdapterIndex.is_acceptable({a}, prefix=False)"]
     report.ob("C08.R4", "AdapterCutter._split_adapters", ok, facts={"tests": tests}, expected="prefix group: is_acceptable(a, prefix=True); suffix group: is_acceptable(a, prefix=False); else other", loc=repo.loc(sp))
 
 
